@@ -4,7 +4,8 @@
       2  differ/merger dataflow  -> PoolFlow.run_flow (format there)
       3  regression: failing store + spilled sorter chunks (child process)   -> (1) = error returned
       4  regression: failing slow store, producer must not leak              -> (1) = error returned
-      5  merge end to end, repeated under different GOMAXPROCS / yields      -> (0) = all runs agree *)
+      5  merge end to end, repeated under different GOMAXPROCS / yields      -> (0) = all runs agree
+      6  regression: store Get failing during a merge (errChan capacity)     -> (1) = error returned *)
 From W.lib Require Import Tree.
 From W.model Require Import Pool PoolFlow.
 
@@ -12,6 +13,6 @@ Definition run_C16 (c : tree) : tree :=
   match d_nat (d_nth 0 c) with
   | 0%nat => run_ingest c
   | 2%nat => run_flow c
-  | 3%nat | 4%nat => Node [Leaf 1]
+  | 3%nat | 4%nat | 6%nat => Node [Leaf 1]
   | _ => Node [Leaf 0]
   end.
